@@ -85,6 +85,30 @@ func genC01(t *rapid.T) c01Scen {
 	return s
 }
 
+// appProps renders the application-level properties of a PUBLISH (everything except what the broker adds).
+func appProps(p *mw.Props) string {
+	if p == nil {
+		return ""
+	}
+	var parts []string
+	if p.PayloadFormat != nil {
+		parts = append(parts, fmt.Sprintf("payload-format=%d", *p.PayloadFormat))
+	}
+	if p.ContentType != nil {
+		parts = append(parts, fmt.Sprintf("content-type=%q", *p.ContentType))
+	}
+	if p.ResponseTopic != nil {
+		parts = append(parts, fmt.Sprintf("response-topic=%q", *p.ResponseTopic))
+	}
+	if p.HasCorrelationData || len(p.CorrelationData) > 0 {
+		parts = append(parts, fmt.Sprintf("correlation-data=%x", p.CorrelationData))
+	}
+	for _, u := range p.User {
+		parts = append(parts, fmt.Sprintf("user %q=%q", u.K, u.V))
+	}
+	return strings.Join(parts, " ")
+}
+
 func pubProps(bits int) *mw.Props {
 	if bits == 0 {
 		return nil
@@ -294,6 +318,25 @@ func runC01(s c01Scen, c *ev.Case) *ev.Violation {
 				d.SubIDs = p.Props.SubscriptionIDs
 			}
 			got = append(got, d)
+			// the application message is forwarded as published: a v5 subscriber sees the publisher's payload format,
+			// content type, response topic, correlation data and user properties (in order), and nothing invented
+			if s.Clients[i].V == 5 {
+				for _, r := range sent {
+					if r.uid != d.UID {
+						continue
+					}
+					eff := r.pub.Props
+					if r.pub.By >= 0 && s.Clients[r.pub.By].V != 5 {
+						eff = 0 // a v3.1.1 publisher cannot attach properties
+					}
+					if g, w := appProps(p.Props), appProps(pubProps(eff)); g != w {
+						return ev.Violf("C01.properties", "client %d received %s with application properties {%s}, published with {%s}", i, d.UID, g, w).With("props", eff)
+					}
+					if eff != 0 {
+						c.Label("properties_forwarded")
+					}
+				}
+			}
 			// per-publisher order
 			parts := strings.SplitN(d.UID, ":", 2)
 			if len(parts) == 2 {
